@@ -286,6 +286,14 @@ func natList(xs []int64) string {
 	return "[" + strings.Join(p, ", ") + "]"
 }
 
+func sortStrings(a []string) {
+	for i := 1; i < len(a); i++ {
+		for j := i; j > 0 && a[j-1] > a[j]; j-- {
+			a[j-1], a[j] = a[j], a[j-1]
+		}
+	}
+}
+
 func bytesLit(s string) string {
 	parts := make([]string, len(s))
 	for i := 0; i < len(s); i++ {
@@ -404,6 +412,101 @@ func main() {
 			die("no keys listed in the LFSCONFIG section")
 		}
 		return "def docLfsconfigKeys : List Bytes := " + bytesList(keys)
+	})
+	// ---- lfs/hook.go, lfs/attribute.go (C20)
+	emit("hooks", func() string {
+		fd := lfs.funcDecl("LoadHooks")
+		var names []string
+		var ups [][]string
+		ast.Inspect(fd.Body, func(n ast.Node) bool {
+			c, ok := n.(*ast.CallExpr)
+			if !ok {
+				return true
+			}
+			if id, ok := c.Fun.(*ast.Ident); ok && id.Name == "NewStandardHook" && len(c.Args) >= 3 {
+				name, ok := lfs.eval(c.Args[0]).(string)
+				if !ok {
+					die("hook type is not a string literal")
+				}
+				u, ok := lfs.eval(c.Args[2]).([]string)
+				if !ok {
+					die("upgradeables of %s are not a string list", name)
+				}
+				names = append(names, name)
+				var uu []string
+				for _, x := range u {
+					uu = append(uu, strings.Replace(x, "{{Command}}", name, -1))
+				}
+				ups = append(ups, uu)
+			}
+			return true
+		})
+		if len(names) == 0 {
+			die("no NewStandardHook calls in LoadHooks")
+		}
+		base := lfs.str("hookBaseContent")
+		var b strings.Builder
+		b.WriteString("def hookNames : List Bytes := " + bytesList(names) + "\n")
+		var cur []string
+		for _, n := range names {
+			cur = append(cur, strings.Replace(base, "{{Command}}", n, -1))
+		}
+		b.WriteString("def hookCurrent : List Bytes := " + bytesList(cur) + "\n")
+		var ul []string
+		for _, u := range ups {
+			ul = append(ul, bytesList(u))
+		}
+		b.WriteString("def hookUpgradeables : List (List Bytes) := [" + strings.Join(ul, ",\n ") + "]\n")
+		return b.String()
+	})
+	emit("hookReadWindow", func() string { return fmt.Sprintf("def hookReadWindow : Nat := %d", lfs.num("hookSizeLimit")) })
+	emit("filterAttribute", func() string {
+		// the composite literal returned by filterAttribute(): Properties and Upgradeables
+		props := map[string]string{}
+		upg := map[string][]string{}
+		ast.Inspect(lfs.funcDecl("filterAttribute").Body, func(n ast.Node) bool {
+			kv, ok := n.(*ast.KeyValueExpr)
+			if !ok {
+				return true
+			}
+			key, _ := kv.Key.(*ast.Ident)
+			cl, _ := kv.Value.(*ast.CompositeLit)
+			if key == nil || cl == nil {
+				return true
+			}
+			for _, el := range cl.Elts {
+				e, ok := el.(*ast.KeyValueExpr)
+				if !ok {
+					continue
+				}
+				k, _ := lfs.eval(e.Key).(string)
+				switch key.Name {
+				case "Properties":
+					v, _ := lfs.eval(e.Value).(string)
+					props[k] = v
+				case "Upgradeables":
+					v, _ := lfs.eval(e.Value).([]string)
+					upg[k] = v
+				}
+			}
+			return false
+		})
+		if len(props) == 0 {
+			die("filterAttribute properties not found")
+		}
+		var keys []string
+		for k := range props {
+			keys = append(keys, k)
+		}
+		sortStrings(keys)
+		var vals []string
+		var ups []string
+		for _, k := range keys {
+			vals = append(vals, props[k])
+			ups = append(ups, bytesList(upg[k]))
+		}
+		return "def filterKeys : List Bytes := " + bytesList(keys) + "\ndef filterValues : List Bytes := " + bytesList(vals) +
+			"\ndef filterUpgradeables : List (List Bytes) := [" + strings.Join(ups, ",\n ") + "]\n"
 	})
 	// ---- commands/command_filter_process.go + vendored pktline (C14)
 	cmds := safeLoad(filepath.Join(repo, "commands"))
